@@ -94,13 +94,40 @@ func extGenerate(c *core.Ctx, depth int, attr bool, walks, walkDepth int) ([][]e
 
 // extRunAll executes jobs, validates with ExtTree_Trace and, when fsck is on, checks the
 // e2fsck verdict of every event (C05).
-func extRunAll(c *core.Ctx, jobs []extJob, module, cfgFile string, sig func(job extJob, step int, ev map[string]any, detail string) ([]string, string)) [][]map[string]any {
+func extRunAll(c *core.Ctx, jobs []extJob, module, cfgFile string, sig func(job extJob, step int, ev map[string]any, detail string) ([]string, string)) {
+	// batches, see fatRunAll
+	const batch = 3000
+	accepted := map[string]int{}
+	executed, rejected := 0, 0
+	for lo := 0; lo < len(jobs); lo += batch {
+		hi := lo + batch
+		if hi > len(jobs) {
+			hi = len(jobs)
+		}
+		e, r, ok := extRunBatch(c, jobs[lo:hi], lo, len(jobs), module, cfgFile, sig, accepted)
+		executed += e
+		rejected += r
+		if !ok {
+			return
+		}
+	}
+	c.Extra["accepted_calls_per_action"] = accepted
+	for _, a := range []string{"Mkdir", "Create", "WriteAt", "Append", "Symlink", "Remove"} {
+		if accepted[a] == 0 {
+			c.Broken("vacuous: no %s call was accepted by the real filesystem", a)
+		}
+	}
+	c.TracesValidated = int64(executed - rejected)
+	c.Extra["behaviours_executed"] = executed
+	c.Extra["behaviours_rejected"] = rejected
+}
+
+func extRunBatch(c *core.Ctx, jobs []extJob, base, total int, module, cfgFile string, sig func(job extJob, step int, ev map[string]any, detail string) ([]string, string), accepted map[string]int) (executed, rejected int, ok bool) {
 	behs := make([][]map[string]any, len(jobs))
 	errs := make([]error, len(jobs))
 	parallel(len(jobs), func(i int) { behs[i], errs[i] = extExec(jobs[i].cfg, jobs[i].ops) })
 	var good [][]map[string]any
 	var goodJobs []extJob
-	accepted := map[string]int{}
 	for i := range jobs {
 		if errs[i] != nil {
 			c.Broken("cannot create %+v: %v", jobs[i].cfg, errs[i])
@@ -115,25 +142,19 @@ func extRunAll(c *core.Ctx, jobs []extJob, module, cfgFile string, sig func(job 
 			}
 		}
 		c.Distinct(fmt.Sprintf("%+v|%v", jobs[i].cfg, jobs[i].ops))
-		if i%(len(jobs)/4+1) == 1 {
+		if (base+i)%(total/4+1) == 1 {
 			c.Sample(map[string]any{"cfg": jobs[i].cfg, "label": jobs[i].label, "ops": jobs[i].ops, "results": resultsOf(behs[i])})
-		}
-	}
-	c.Extra["accepted_calls_per_action"] = accepted
-	for _, a := range []string{"Mkdir", "Create", "WriteAt", "Append", "Symlink", "Remove"} {
-		if accepted[a] == 0 {
-			c.Broken("vacuous: no %s call was accepted by the real filesystem", a)
 		}
 	}
 	trace, first := fatTraceBytes(good)
 	tv, err := tlc.ValidateTrace(module, cfgFile, trace, nil, 40*time.Minute, false)
 	if err != nil {
 		c.Broken("%s: %v", module, err)
-		return good
+		return len(good), 0, false
 	}
 	if tv.InvViolated != "" {
 		c.Broken("%s invariant on matched steps: %s", module, tv.InvViolated)
-		return good
+		return len(good), 0, false
 	}
 	bad := map[int]bool{}
 	for k, idx := range tv.Mismatches {
@@ -151,10 +172,7 @@ func extRunAll(c *core.Ctx, jobs []extJob, module, cfgFile string, sig func(job 
 		}
 		c.Fail(sigs, msg, map[string]any{"cfg": goodJobs[bi].cfg, "label": goodJobs[bi].label, "ops_up_to_failure": ops, "results_up_to_failure": resultsOf(good[bi][:step+1]), "failing_step": step, "event": ev, "previous_event": prevEv(good[bi], step)})
 	}
-	c.TracesValidated = int64(len(good) - len(bad))
-	c.Extra["behaviours_executed"] = len(good)
-	c.Extra["behaviours_rejected"] = len(bad)
-	return good
+	return len(good), len(bad), true
 }
 
 func c04Sig(job extJob, step int, ev map[string]any, detail string) ([]string, string) {
